@@ -152,6 +152,16 @@ func vc05BadEcho(name string) bool {
 	return len(parts) > 1 && parts[1] == "sb"
 }
 
+// vc05FormErr: names under fe.test. are answered by an upstream that does not
+// implement ECS and says FORMERR to every request that carries a non-zero
+// subnet (RFC 7871, 7.1.3, describes such servers); without ECS or with /0 it
+// answers normally.
+func vc05FormErr(name string) bool {
+	parts := strings.Split(strings.ToLower(name), ".")
+
+	return len(parts) > 1 && parts[1] == "fe"
+}
+
 func (u *vc05Upstream) ServeDNS(ctx context.Context, rw dnsserver.ResponseWriter, req *dns.Msg) (err error) {
 	e := vdns.ECSOpt(req)
 	var all []*dns.EDNS0_SUBNET
@@ -183,6 +193,15 @@ func (u *vc05Upstream) ServeDNS(ctx context.Context, rw dnsserver.ResponseWriter
 	tag := ""
 	if scoped {
 		tag = vdns.ECSPrefix(e)
+	}
+
+	if vc05FormErr(q.Name) && e != nil && e.SourceNetmask > 0 {
+		fe := (&dns.Msg{}).SetRcode(req, dns.RcodeFormatError)
+		if req.IsEdns0() != nil {
+			fe.SetEdns0(1232, false)
+		}
+
+		return rw.WriteMsg(ctx, req, fe)
 	}
 
 	resp := vdns.Answer(req, tag, true)
@@ -628,7 +647,7 @@ func vc05BuildReq(t *rapid.T, name string, qt uint16, do bool, c vc05Client) (re
 func TestVerifC05History(tt *testing.T) {
 	st := vstat.New("C05", "dnssvc.ecs-history",
 		"rapid histories of clients (v4/v6, known/unknown location, ECS none/valid/declined/malformed/two options) asking overlapping scoped and unscoped names (one in five answered through a filter CNAME rewrite of the question) through ratelimitmw+mainmw+ecscache in front of a subnet-tagging upstream, model GeoIP database; non-trivial = cache hit on a scoped name, or a declined or malformed request; distinct by (question, client ECS mode, effective subnet, hit)",
-		"hit-scoped", "declined", "malformed", "declined-after-scoped-cached", "scoped-other-subnet", "valid-ecs", "two-ecs-options", "question-rewritten-by-filter+ecs", "upstream-echo-malformed", "region-from-ecs-only", "region-from-client-address")
+		"hit-scoped", "declined", "malformed", "declined-after-scoped-cached", "scoped-other-subnet", "valid-ecs", "two-ecs-options", "question-rewritten-by-filter+ecs", "upstream-echo-malformed", "region-from-ecs-only", "region-from-client-address", "upstream-formerr-to-ecs")
 	st.Finish(tt)
 
 	vc05UseRealAddrs = false
@@ -700,7 +719,7 @@ func vc05RunHistories(tt *testing.T, st *vstat.Stats, env *vc05Env) {
 				a = pool[rapid.IntRange(0, len(pool)-1).Draw(t, "which")]
 			} else {
 				kind := rapid.SampledFrom([]vdns.Kind{vdns.KA, vdns.KA, vdns.KAMixed, vdns.KCNAME, vdns.KNodataSOA, vdns.KNX, vdns.KServfail, vdns.KRefused}).Draw(t, "kind")
-				zone := rapid.SampledFrom([]string{"s.test.", "s.test.", "u.test.", "sb.test."}).Draw(t, "zone")
+				zone := rapid.SampledFrom([]string{"s.test.", "s.test.", "u.test.", "sb.test.", "fe.test."}).Draw(t, "zone")
 				name := vdns.Name(kind, 6, zone) // TTL 300: nothing expires within a case
 				if rapid.IntRange(0, 4).Draw(t, "rewritten") == 0 {
 					// answered through the filter's CNAME rewrite of the question
@@ -762,7 +781,7 @@ func vc05RunHistories(tt *testing.T, st *vstat.Stats, env *vc05Env) {
 			// Two OPT records are a format error by RFC 6891; the statement does
 			// not say whether the server must reject them, so both treatments
 			// are accepted, but a rejection sends nothing upstream.
-			twoOPTRejected := c.SecondInOwnOPT && resp.Rcode == dns.RcodeFormatError
+			twoOPTRejected := c.SecondInOwnOPT && resp.Rcode == dns.RcodeFormatError && !(vc05FormErr(a.name) && nUp > 0)
 
 			// P5: malformed => FORMERR and nothing upstream.
 			if c.Mode == vc05BadHostBits || c.Mode == vc05BadFamily0 || fam0Rejected || twoOPTRejected {
@@ -885,6 +904,25 @@ func vc05RunHistories(tt *testing.T, st *vstat.Stats, env *vc05Env) {
 				if declined && call.ecs.SourceNetmask != 0 {
 					t.Fatalf("history %v: client declined ECS but upstream got %s", hist, sub)
 				}
+			}
+
+			// An upstream that says FORMERR to ECS: whatever the stack does next
+			// (pass the error on, or retry), every upstream request has been
+			// judged above (only the coarse subnet or /0 may ever be sent); the
+			// client-side echo of an error response is not judged.
+			// Such an upstream is not a function of the forwarded subnet that is
+			// consistent with the scopes it reports, so nothing but the upstream
+			// requests is judged for its names.
+			if vc05FormErr(a.name) {
+				for _, call := range calls {
+					if call.ecs != nil && call.ecs.SourceNetmask > 0 {
+						st.Class("upstream-formerr-to-ecs")
+					}
+				}
+
+				st.Case("", classes...)
+
+				continue
 			}
 
 			// P3: warm equals fresh.
